@@ -236,6 +236,11 @@ def chk_merge(inp):
         off += sz
         t = _traj(sz, rng, "random", True, False)
         t.timestamps = ts_all[idx].copy()
+        if inp.get("shared"):
+            # timestamps shared between the inputs (segments with a common boundary stamp, sensors on one clock):
+            # each input keeps strictly increasing stamps of its own, drawn from one small common pool
+            pool = np.arange(1, max(inp["sizes"]) + 4) / 8.0
+            t.timestamps = np.sort(rng.choice(pool, size=sz, replace=False))
         trajs.append(t)
     before = [(t.positions_xyz.copy(), t.orientations_quat_wxyz.copy(), t.timestamps.copy()) for t in trajs]
     m = trajectory.merge(trajs)
@@ -248,15 +253,15 @@ def chk_merge(inp):
         return f + ["contains_every_pose"]
     if np.any(np.diff(m.timestamps) < 0):
         f.append("time_sorted")
-    lookup = {}
-    for b in before:
-        for k in range(len(b[2])):
-            lookup[float(b[2][k])] = (b[0][k], b[1][k])
-    for k in range(m.num_poses):
-        p, q = lookup.get(float(m.timestamps[k]), (None, None))
-        if p is None or not np.array_equal(p, m.positions_xyz[k]) or not np.array_equal(q, m.orientations_quat_wxyz[k]):
-            f.append("every_pose_keeps_its_own_timestamp_and_orientation (pose %d)" % k)
-            break
+    # the merged (stamp, position, orientation) triples are the union of the inputs' triples as a multiset
+    # (equal stamps may come out in either order: the property fixes the time order only)
+    want = sorted((float(b[2][k]), tuple(map(float, b[0][k])), tuple(map(float, b[1][k])))
+                  for b in before for k in range(len(b[2])))
+    got = sorted((float(m.timestamps[k]), tuple(map(float, m.positions_xyz[k])),
+                  tuple(map(float, m.orientations_quat_wxyz[k]))) for k in range(m.num_poses))
+    if want != got:
+        k = next(i for i, (x, y) in enumerate(zip(want, got)) if x != y)
+        f.append("every_pose_keeps_its_own_timestamp_and_orientation (triple %d of the sorted union)" % k)
     return f
 
 
@@ -290,7 +295,8 @@ def _cases(tier, seed):
             thr = {"time": float(rng.choice([0.05, 0.1, 1.0, 5.0])), "distance": float(rng.choice([0.0, 1.0, 2.0, 0.5])),
                    "speed": float(rng.choice([1.0, 10.0, 30.0]))}[which]
             yield ("split", {"seed": sd, "n": n, "kind": kind, "from_poses": fp, "which": which, "thr": thr})
-        yield ("merge", {"seed": sd, "sizes": [int(x) for x in rng.integers(1, 12, size=int(rng.integers(1, 7)))]})
+        yield ("merge", {"seed": sd, "sizes": [int(x) for x in rng.integers(1, 12, size=int(rng.integers(1, 7)))],
+                         "shared": bool(it % 3 == 0)})
 
 
 def bounded(tier, seed):
@@ -298,7 +304,7 @@ def bounded(tier, seed):
                  rule="trajectories built from positions+quaternions and from matrices, 1..%d poses, exact-grid and random "
                       "geometry with stationary stretches and jumps, irregular sampling; all target counts -1..n+2 for "
                       "n <= 13; thresholds incl. 0 and values hit exactly (grid); crop intervals empty / one-sided / outside; "
-                      "1..6 trajectories with interleaved stamps; each kept pose compared as a (position, matrix, stamp) triple"
+                      "1..6 trajectories with interleaved stamps, every third case with stamps shared between the inputs; each kept pose compared as a (position, matrix, stamp) triple"
                       % (300 if tier == "quick" else 5000),
                  bounds={"max_poses": 300 if tier == "quick" else 5000, "seed": seed})
 
